@@ -1,9 +1,9 @@
 package rules
 
 import (
+	"fmt"
 	"go/token"
 	"go/types"
-	"fmt"
 
 	"golang.org/x/tools/go/ssa"
 
